@@ -19,7 +19,8 @@ RUNS = {"quick": 32000, "thorough": 200000, "thorough_s": 300}
 CHUNK = 200
 RULE = ("seeded simple loop-free graphs with 1..9 vertices (thorough ..11) incl. isolated vertices: G(n,p), planted "
         "overlapping cliques, complete graphs, triangle chains; arbitrary non-negative labels and edge insertion order; "
-        "max_size in {0,2,3,4,5}; 1-2 consecutive covers on the same graph; shuffle schedules uniform/identity/reverse/"
+        "max_size in {0,2,3,4,5}; 1-3 consecutive covers on the same graph object, in 40% of runs with edges moved in between "
+        "(vertex and edge counts unchanged); shuffle schedules uniform/identity/reverse/"
         "rotation/adjacent swaps; aborts mid-shuffle then a new cover; non-trivial = graph has >= 2 edges; distinct = "
         "distinct execution digests")
 ASSUMPTIONS = ["oracle enumerates all cliques by brute force over vertex subsets grown from adjacency (independent of "
@@ -71,6 +72,25 @@ def generate(prng, tier, index):
           "attrs": prng.random() < 0.3}
     if variant == "faults":
         sc["abort_at"] = prng.randrange(0, 8)
+    # histories: between two covers of the SAME graph object, optionally move edges (vertex and edge counts unchanged)
+    if prng.random() < 0.4 and es and len(nodes) >= 3:
+        sc["limits"] = sc["limits"] + [prng.choice((0, 0, 3, 4))]
+        cur = {frozenset(e) for e in es}
+        moves = []
+        for gap in range(len(sc["limits"]) - 1):
+            mv = []
+            for _ in range(prng.choice((0, 1, 1, 2))):
+                non = [(a, b) for i, a in enumerate(sorted(nodes)) for b in sorted(nodes)[i + 1:] if frozenset((a, b)) not in cur]
+                if not non or not cur:
+                    break
+                out_e = sorted(prng.choice(sorted(map(sorted, cur))))
+                in_e = list(prng.choice(non))
+                cur.discard(frozenset(out_e))
+                cur.add(frozenset(in_e))
+                mv.append([out_e, in_e])
+            moves.append(mv)
+        sc["moves"] = moves
+        sc["policy"] = {"shuffle": [prng.choice(SHUFFLES) for _ in range(len(sc["limits"]) + 1)]}
     return sc
 
 
@@ -99,10 +119,11 @@ def parse(label):
     return size, tuple(members), cid
 
 
-def verify(sc, ctx, G, R, limit, tag):
+def verify(sc, ctx, G, R, limit, tag, edges=None):
     P = "C10"
     nodes = set(sc["nodes"])
-    E = {frozenset(e) for e in sc["edges"]}
+    cur_edges = sc["edges"] if edges is None else edges
+    E = {frozenset(e) for e in cur_edges}
     if not isinstance(R, nx.Graph):
         ctx.violate(f"{P}.raised", f"MPCC returned {type(R).__name__}{tag}")
         return
@@ -148,7 +169,7 @@ def verify(sc, ctx, G, R, limit, tag):
     # greedy maximality
     ctx.check(f"{P}.greedy")
     adj = {v: set() for v in nodes}
-    for e in sc["edges"]:
+    for e in cur_edges:
         adj[e[0]].add(e[1])
         adj[e[1]].add(e[0])
     for q in all_cliques(adj, limit):
@@ -171,13 +192,21 @@ def execute(sc, ctx):
             G.edges[u, v]["topology"] = f"t{i % 2}"
     src = ctx.source("order", sc.get("policy"))
     tag = ""
+    cur = [list(e) for e in sc["edges"]]
     for k, limit in enumerate(sc["limits"]):
+        if k > 0 and sc.get("moves") and k - 1 < len(sc["moves"]):
+            for out_e, in_e in sc["moves"][k - 1]:
+                if G.has_edge(*out_e) and not G.has_edge(*in_e):
+                    G.remove_edge(*out_e)
+                    G.add_edge(*in_e)
+                    cur = [e for e in cur if frozenset(e) != frozenset(out_e)] + [list(in_e)]
+                    ctx.probe("edge_moved_between_covers")
         if k == 0 and sc["variant"] == "faults":
             st, _ = ctx.call(src, MPCC, G, limit, abort_at=sc.get("abort_at", 0), budget=100000, label="MPCC")
             if st == "abort":
                 tag = " (cover after an aborted one on the same graph)"
                 ctx.probe("cover_after_abort")
-                if {frozenset(e) for e in G.edges()} != {frozenset(e) for e in sc["edges"]}:
+                if {frozenset(e) for e in G.edges()} != {frozenset(e) for e in cur}:
                     ctx.violate(f"{P}.same", "an aborted cover changed the graph's edge set")
                     return
         st, R = ctx.call(src, MPCC, G, limit, budget=100000, label=f"MPCC[{limit}]")
@@ -187,7 +216,7 @@ def execute(sc, ctx):
         if k > 0:
             tag = " (second cover on the same graph)"
             ctx.probe("second_cover_same_graph")
-        verify(sc, ctx, G, R, limit, tag)
+        verify(sc, ctx, G, R, limit, tag, edges=cur)
         ctx.result(limit, sorted(d.get("clique", "") for _, _, d in R.edges(data=True)) if isinstance(R, nx.Graph) else "")
     ctx.nedges = len(sc["edges"])
     ctx.probe("wide_shuffle_decisions", src.wide)
